@@ -181,6 +181,9 @@ Corpus == <<
        <<[k |-> "p", loc |-> <<[a |-> [b |-> "num", n |-> 9, m |-> 0, re |-> <<>>, offs |-> <<>>], sep |-> ";"],
                                 [a |-> [b |-> "dot", n |-> 0, m |-> 0, re |-> <<>>, offs |-> <<>>], sep |-> ""]>>]>>,
        <<[k |-> "d", loc |-> <<>>, reg |-> 0]>>, <<[k |-> "p", loc |-> PctLoc]>> >>,
+    (* KF-sub-wordctx through a global *)
+    << <<AppendL(<< <<97, 98, 32, 99, 100>>, <<120>> >>)>>,
+       <<[k |-> "g", loc |-> <<>>, re |-> <<97>>, cmds |-> <<SubG(<<92, 60>>, <<88>>)>>]>> >>,
     (* fixed: \1 in the replacement of a literal pattern; a|b is not literal text *)
     << <<AppendL(<< <<97, 98, 99>>, <<98>>, <<97, 124, 98>> >>)>>,
        <<[k |-> "s", loc |-> A("num", 1), re |-> <<97, 98, 99>>, rep |-> <<91, 92, 49, 93>>, g |-> FALSE]>>,
